@@ -48,7 +48,7 @@ TRUSTED_EXTRA = [
     "compressor is the identity and only the bytes handed to compress()/the number of flush() calls are compared",
     "io.BufferedIOBase.readinto and io.IOBase.readline are C implementations, modelled as read(len(b)) and as repeated "
     "read(1) until b'' or a newline (the class has no peek)",
-    "the underlying file object is an io.BytesIO: seekable, read(n) returns n bytes unless at end of file, single thread "
+    "the underlying file object is an io.BytesIO (full reads) or, for 30 % of the files, a seekable raw stream that returns at most k bytes per read (k from 1 to 9000): seekable, b'' only at end of file, single thread "
     "(the RLock is never contended)",
 ]
 
@@ -69,7 +69,7 @@ RULE = (
     "operation (read/readinto/readline); distinct by sha1 of (payload spec, class, level, chunking, operations)"
 )
 ASSUMPTIONS = [
-    "underlying file object is io.BytesIO (seekable, full reads); single-threaded use",
+    "underlying file object is seekable and returns b'' only at end of file (io.BytesIO, or short reads of at most k bytes); single-threaded use",
     "chunk boundaries given to the model are those CPython's zlib.decompressobj produces on 8192-byte raw blocks",
     "readline is only generated where the model's cost (quadratic in the line length) fits the budget: lines up to "
     "about 9000 bytes in the quick tier, 14000 in thorough",
@@ -113,10 +113,45 @@ def _ref_compress(payload, cls, level):
     return c.compress(payload) + c.flush()
 
 
-def _chunk_lens(raw, wbits):
-    """Lengths of the decompressed chunks exactly as `_fill_buffer` produces them (zeros kept)."""
+class _Chunky(io.RawIOBase):
+    """A seekable raw stream over `raw` whose read(n) hands out at most `k` bytes at a time, as raw files, pipes and
+    sockets legitimately do (io.RawIOBase.read: "fewer than size bytes may be returned"); b"" only at the end."""
+
+    def __init__(self, raw, k):
+        self._b = io.BytesIO(raw)
+        self._k = k
+
+    def readable(self):
+        return True
+
+    def seekable(self):
+        return True
+
+    def read(self, n=-1):
+        return self._b.read(self._k if n is None or n < 0 else min(n, self._k))
+
+    def readinto(self, b):
+        data = self.read(len(b))
+        b[:len(data)] = data
+        return len(data)
+
+    def seek(self, pos, whence=0):
+        return self._b.seek(pos, whence)
+
+    def tell(self):
+        return self._b.tell()
+
+
+def _under(raw, k):
+    """The file object handed to the compressor class for reading: io.BytesIO, or short reads of at most k bytes."""
+    return io.BytesIO(raw) if not k else _Chunky(raw, k)
+
+
+def _chunk_lens(raw, wbits, k=None):
+    """Lengths of the decompressed chunks exactly as `_fill_buffer` produces them (zeros kept) when the underlying file
+    object returns at most k bytes per read (None: full reads)."""
     d = zlib.decompressobj(wbits)
-    fp = io.BytesIO(raw)
+    fp = _under(raw, k)
     lens = []
     while True:
         if d.eof and d.unused_data:
@@ -430,7 +465,10 @@ def _gen_file(rng, spec, cls, level, nseq, maxlen, budget, cap, chunking=None, s
         ok = spec["kind"] == "text" or len(payload) <= 2048
         types = ["neg", "whence", "close", "write", "neg", "neg"]
         seqs = [_gen_malformed_seq(rng, payload, bounds, types[i % len(types)], ok) for i in range(nseq)]
-    return dict(stream=stream, payload=spec, cls=cls, level=level, chunking=chunking, wops=_gen_wops(rng, chunking), seqs=seqs)
+    # the underlying file object of the read side: full reads (io.BytesIO) or short reads of at most k bytes
+    under = rng.choice([1, 7, 1000, 4096, 8191, rng.randint(1, 9000)]) if rng.random() < 0.3 else None
+    return dict(stream=stream, payload=spec, cls=cls, level=level, chunking=chunking, wops=_gen_wops(rng, chunking), seqs=seqs,
+                under=under)
 
 
 def _spec(rng, kind, n):
@@ -722,18 +760,19 @@ def _exec_case(case, classes, limit):
     rawbytes = produced
     if rawbytes is not None and not any(s == "write:decoder-mismatch" for s, _ in wfail):
         try:
-            lens = _chunk_lens(rawbytes, cls.wbits)
+            lens = _chunk_lens(rawbytes, cls.wbits, case.get("under"))
         except Exception:  # noqa: BLE001
             lens = None
     if lens is None or sum(lens) != n:
         # the writer is broken (already reported above): read from what zlib itself produces
         count("read-side-on-reference-bytes")
         rawbytes = _ref_compress(payload, case["cls"], case["level"])
-        lens = _chunk_lens(rawbytes, _WBITS[case["cls"]])
+        lens = _chunk_lens(rawbytes, _WBITS[case["cls"]], case.get("under"))
         if sum(lens) != n:
             raise core.InfraError("reference compressor round trip failed")
     bounds = _bounds(lens)
     count("raw-blocks:" + _small_bucket((len(rawbytes) + _BLOCK - 1) // _BLOCK))
+    count("underlying-reads:" + ("full" if not case.get("under") else "short<=%s" % ("8" if case["under"] <= 8 else "4096" if case["under"] <= 4096 else "8191+")))
     count("decompressed-chunks:" + _small_bucket(len(lens)))
     count("empty-chunk:" + ("yes" if 0 in lens and n else "no"))
     count("max-chunk:" + ("<=8192" if max(lens, default=0) <= _BLOCK else "8193-32768" if max(lens) <= 32768 else ">32768"))
@@ -745,7 +784,7 @@ def _exec_case(case, classes, limit):
         first_oos = None
         judge = stream == "main"
         ref = io.BytesIO(payload)
-        f = cls(io.BytesIO(rawbytes), "rb")
+        f = cls(_under(rawbytes, case.get("under")), "rb")
         readlike = False
         if use_alarm:
             signal.setitimer(signal.ITIMER_REAL, limit)
